@@ -294,6 +294,9 @@ fn views(w: &World) -> Views {
     }
     let mut pa: Vec<u64> = s.all_proxies.keys().map(|k| id_of(k)).collect();
     pa.sort();
+    if std::env::var("UM_NO_PROXY_VIEWS").is_ok() {
+        pa.clear();
+    }
     let mut proxies = vec![];
     for a in pa {
         for l in LIMITS.iter() {
